@@ -72,6 +72,9 @@ def gen_report(rng, small=False):
     version = ("%d.%d.%d" % (rng.below(3), rng.below(40), rng.below(12))).encode()
     ncmd = rng.below(3 if small else 6)
     cmd = [t.rand_string(rng, rng.choice([1, 2, 3] if small else [2, 5, 30])) for _ in range(ncmd)]
+    # option-like / assignment-like arguments (-name=value, NAME=~/x) with special characters on both sides of the `=`
+    for _ in range(rng.below(3)):
+        cmd.insert(rng.below(len(cmd) + 1), t.rand_wordlike(rng).replace(b"\0", b"\x01") or b"-")
     if rng.chance(1, 3):
         cmd = [b"fclones", b"group"] + cmd
     base = gen_path(rng, 2 if small else 4)
@@ -186,7 +189,7 @@ def roundtrip_fails(reports):
 
 def run(ctx):
     ctx.rule = ("STFU-8 layer: all strings of <= %d symbols over the 20-symbol alphabet (encode, decode of the encoding, path decode); "
-                "reports: %d random reports (0-5 arguments of <= 30 symbols, base dir and 1-4 paths per group with components over the alphabet "
+                "reports: %d random reports (0-5 arguments of <= 30 symbols plus 0-2 option-like/assignment-like arguments such as -name=value or NAME=~/x, tiny reports whose argument is every string of <= 3 symbols over {a = : ~ # - SP $ ' /}, base dir and 1-4 paths per group with components over the alphabet "
                 "plus random bytes/scalars, '..' components, 0-4 groups, hashes of 1-64 bytes, sizes at the ByteSize unit thresholds up to 2^64-1) "
                 "written, read back, as JSON too; every truncation point of %d small reports; %d random edits of report texts. "
                 "A case is one command line of the txt protocol; non-trivial = the line carries an escape/quote (backslash in the text) or is a "
@@ -265,7 +268,7 @@ def run(ctx):
         reports = [gen_report(rng, small=(i % 3 == 0)) for i in range(ctx.pick(300, 5000))]
         # tiny reports: one group with one path /<s>, the argument <s> and the base dir /<s>, for every string s of <= 2 symbols
         tiny0 = gen_report(rng, small=True)
-        for sidx, sx in enumerate(t.strings_upto(2)):
+        for sidx, sx in enumerate(t.strings_upto(2) + t.strings_upto(3, t.ALPHA2)):
             comp = sx.replace(b"/", b"_")
             if comp == b".":
                 continue
